@@ -75,6 +75,8 @@ struct List
     static constexpr std::array<std::size_t, N> aligns{(Ds::align_as ? Ds::align_as : std::size_t{1})...};
     static constexpr std::array<bool, N> has_align{(Ds::align_as != 0)...};
     static constexpr std::array<bool, N> tracked{IS_TRACKED<typename Ds::type>...};
+    // value types whose move operations leave the value MOVED in the source
+    static constexpr std::array<bool, N> marks_moved{(IS_TRACKED<typename Ds::type> || std::is_same_v<typename Ds::type, Mva>)...};
     // values whose copy has to go through a (counted) copy constructor
     static constexpr std::array<bool, N> copy_counted{(IS_TRACKED<typename Ds::type> || std::is_same_v<typename Ds::type, Cpy>)...};
     static constexpr std::size_t NF = (std::size_t{} + ... + (Ds::kind == F));
@@ -317,7 +319,7 @@ struct List
     static void mark_moved(Elem& m)
     {
         for (std::size_t i = 0; i < N; ++i)
-            if (tracked[i])
+            if (marks_moved[i])
                 for (auto& x : m.f[i]) x = MOVED;
     }
     static std::size_t copy_counted_objects(const Elem& m)
